@@ -26,13 +26,17 @@ func init() {
 			base := writeSegments(dir, args[5:])
 			opts := parseOpts(args[1], args[2])
 			gs, ge := core.Atoi(args[3]), core.Atoi(args[4])
-			pgdump.ReadMultiSegmentFile(base, gs, ge, opts)
-			sz := 0
-			if args[2] != "nil" {
-				sz = core.Atoi(args[2])
+			if !filesIntact(dir, func() {
+				pgdump.ReadMultiSegmentFile(base, gs, ge, opts)
+				sz := 0
+				if args[2] != "nil" {
+					sz = core.Atoi(args[2])
+				}
+				pgdump.GlobalBlockToSegment(gs, sz)
+				pgdump.ReadSegmentBlock(base, gs, opts)
+			}) {
+				return "INPUT-MODIFIED:files"
 			}
-			pgdump.GlobalBlockToSegment(gs, sz)
-			pgdump.ReadSegmentBlock(base, gs, opts)
 		case "file":
 			dir := tmpDir()
 			defer os.RemoveAll(dir)
@@ -40,12 +44,16 @@ func init() {
 			writeFile(path, unhex(args[3]))
 			a, b := core.Atoi(args[1]), core.Atoi(args[2])
 			r := &pgdump.BlockRange{Start: a, End: b}
-			pgdump.ReadBlockRange(path, r)
-			pgdump.DumpBlockRange(path, r)
-			pgdump.DumpBinaryRange(path, r)
-			pgdump.GetBlockRangeStats(path, r)
-			pgdump.DumpBinaryBlock(path, a)
-			pgdump.ReadTuplesInRange(path, r, true)
+			if !filesIntact(dir, func() {
+				pgdump.ReadBlockRange(path, r)
+				pgdump.DumpBlockRange(path, r)
+				pgdump.DumpBinaryRange(path, r)
+				pgdump.GetBlockRangeStats(path, r)
+				pgdump.DumpBinaryBlock(path, a)
+				pgdump.ReadTuplesInRange(path, r, true)
+			}) {
+				return "INPUT-MODIFIED:files"
+			}
 		default:
 			return "bad-args"
 		}
